@@ -155,7 +155,8 @@ def handle (j : Json) : Except String Json := do
                   ("trim", encDoc (trimDoc d))]
     match writeXml d with
     | .ok x => pure (jobj (("ok", encX x) :: flags))
-    | .error _ => pure (jobj (("raised", "ValueError") :: flags))
+    | .error .parser => pure (jobj (("raised", "ParserException") :: flags))
+    | .error .valueError => pure (jobj (("raised", "ValueError") :: flags))
   | "read" =>
     let x ← decX (← getVal j "x")
     let m := if (← getStr j "mode") == "strict" then Mode.strict else Mode.lenient
